@@ -9,7 +9,9 @@ import (
 	"fmt"
 	"go/token"
 	"go/types"
+	"math/big"
 	"regexp"
+	"sort"
 	"strings"
 )
 
@@ -53,9 +55,31 @@ func fmtNative(format string, hasFormat bool, args []value) string {
 		}
 		return fmt.Sprint(conc...)
 	}
+	// placeholder: deterministic in the format and in the identity of the (symbolic) arguments, so that equal
+	// inputs give equal text and different symbolic inputs give different text
 	var sb strings.Builder
 	sb.WriteString("<fmt:")
 	sb.WriteString(format)
+	for _, a := range args {
+		sb.WriteByte('|')
+		it, isIface := a.(iface)
+		if !isIface {
+			sb.WriteString("?")
+			continue
+		}
+		switch v := it.v.(type) {
+		case symInt:
+			fmt.Fprintf(&sb, "t%d", v.t.ID)
+		case symBool:
+			fmt.Fprintf(&sb, "t%d", v.t.ID)
+		case bool, int, int8, int16, int32, int64, uint, uint8, uint16, uint32, uint64, uintptr, string:
+			fmt.Fprintf(&sb, "%v", v)
+		default:
+			if it.t != nil {
+				sb.WriteString(it.t.String())
+			}
+		}
+	}
 	sb.WriteString(">")
 	return sb.String()
 }
@@ -75,7 +99,18 @@ func init() {
 			if !ok {
 				return "<fmt>"
 			}
-			return fmtNative(f, true, sliceArg(a[1]))
+			// a tightly bounded symbolic integer is concretised (forked) so that keys such as "s/%d" stay exact
+			args := append([]value{}, sliceArg(a[1])...)
+			for j, x := range args {
+				if it, ok := x.(iface); ok {
+					if s, ok := it.v.(symInt); ok && s.t.Lo != nil && s.t.Hi != nil && new(big.Int).Sub(s.t.Hi, s.t.Lo).Cmp(big.NewInt(40)) <= 0 {
+						if _, named := it.t.(*types.Named); !named {
+							args[j] = iface{t: it.t, v: fr.i.concretize(s)}
+						}
+					}
+				}
+			}
+			return fmtNative(f, true, args)
 		},
 		"fmt.Sprint":   func(fr *frame, a []value) value { return fmtNative("", false, sliceArg(a[0])) },
 		"fmt.Sprintln": func(fr *frame, a []value) value { return fmtNative("", false, sliceArg(a[0])) + "\n" },
@@ -442,4 +477,117 @@ func init() {
 
 func init() {
 	externals["("+RepoMod+"/types.ABCIMessageLogs).String"] = func(fr *frame, a []value) value { return "<abci message logs>" }
+}
+
+func init() {
+	externals["runtime.Callers"] = func(fr *frame, a []value) value { return 0 }
+	externals["runtime.Caller"] = func(fr *frame, a []value) value { return tuple{uintptr(0), "", 0, false} }
+}
+
+// hash.Hash objects of crypto/sha256: the digest state is kept in a side table keyed by the object pointer.
+func init() {
+	externals["crypto/sha256.New"] = func(fr *frame, a []value) value {
+		pkg := fr.i.prog.ImportedPackage("crypto/sha256")
+		dt := pkg.Type("digest").Type()
+		v := zero(dt)
+		p := &v
+		fr.i.digests[p] = []value{}
+		return iface{t: types.NewPointer(dt), v: p}
+	}
+	externals["(*crypto/sha256.digest).Write"] = func(fr *frame, a []value) value {
+		p := a[0].(*value)
+		cells := byteCells(a[1])
+		fr.i.digests[p] = append(fr.i.digests[p], cells...)
+		return tuple{len(cells), iface{}}
+	}
+	externals["(*crypto/sha256.digest).Reset"] = func(fr *frame, a []value) value {
+		fr.i.digests[a[0].(*value)] = []value{}
+		return nil
+	}
+	externals["(*crypto/sha256.digest).Size"] = func(fr *frame, a []value) value { return 32 }
+	externals["(*crypto/sha256.digest).BlockSize"] = func(fr *frame, a []value) value { return 64 }
+	externals["(*crypto/sha256.digest).Sum"] = func(fr *frame, a []value) value {
+		p := a[0].(*value)
+		buf := fr.i.digests[p]
+		sum := externals["crypto/sha256.Sum256"](fr, []value{append([]value{}, buf...)}).(array)
+		var prefix []value
+		if a[1] != nil {
+			prefix = a[1].([]value)
+		}
+		return append(append([]value{}, prefix...), sum...)
+	}
+}
+
+// merkle.SimpleHashFromMap: an injective, order-independent function of the map content (stub for tendermint's
+// simple Merkle tree over sorted key/value hashes).
+func init() {
+	externals["github.com/tendermint/tendermint/crypto/merkle.SimpleHashFromMap"] = func(fr *frame, a []value) value {
+		m := a[0].(*omap)
+		type ent struct {
+			k string
+			v []value
+		}
+		var es []ent
+		if m != nil {
+			for j := range m.keys {
+				if m.dead[j] {
+					continue
+				}
+				k, ok := m.keys[j].(string)
+				if !ok {
+					unsup("SimpleHashFromMap with symbolic key")
+				}
+				v, _ := m.vals[j].([]value)
+				es = append(es, ent{k, v})
+			}
+		}
+		sort.Slice(es, func(x, y int) bool { return es[x].k < es[y].k })
+		var buf []value
+		for _, e := range es {
+			buf = append(buf, uint8(len(e.k)))
+			buf = append(buf, strCells(e.k)...)
+			buf = append(buf, uint8(len(e.v)))
+			buf = append(buf, e.v...)
+		}
+		fr.i.m.Stubs["merkle.SimpleHashFromMap as sha256 of the sorted (name,value) list"]++
+		sum := externals["crypto/sha256.Sum256"](fr, []value{buf}).(array)
+		return append([]value{}, sum...)
+	}
+}
+
+// tendermint/iavl proof ops: opaque (the cryptographic content of range proofs is outside every claim)
+func init() {
+	mkOp := func(kind string) externalFn {
+		return func(fr *frame, a []value) value {
+			pkg := fr.i.prog.ImportedPackage("github.com/tendermint/iavl")
+			t := pkg.Type(kind).Type()
+			v := zero(t).(structure)
+			v[0] = a[0] // key
+			v[1] = a[1] // proof
+			return v
+		}
+	}
+	externals["github.com/tendermint/iavl.NewIAVLValueOp"] = mkOp("IAVLValueOp")
+	externals["github.com/tendermint/iavl.NewIAVLAbsenceOp"] = mkOp("IAVLAbsenceOp")
+	proofOp := func(typ string) externalFn {
+		return func(fr *frame, a []value) value {
+			op := a[0].(structure)
+			pt := fr.i.prog.ImportedPackage("github.com/tendermint/tendermint/crypto/merkle").Type("ProofOp").Type()
+			st := pt.Underlying().(*types.Struct)
+			out := zero(pt).(structure)
+			for j := 0; j < st.NumFields(); j++ {
+				switch st.Field(j).Name() {
+				case "Type":
+					out[j] = typ
+				case "Key":
+					out[j] = op[0]
+				case "Data":
+					out[j] = []value{boxCell{kind: "iavlproof:" + typ, v: tuple{op[0]}}}
+				}
+			}
+			return out
+		}
+	}
+	externals["(github.com/tendermint/iavl.IAVLValueOp).ProofOp"] = proofOp("iavl:v")
+	externals["(github.com/tendermint/iavl.IAVLAbsenceOp).ProofOp"] = proofOp("iavl:a")
 }
